@@ -983,6 +983,14 @@ class Interp:
                 return str(v).lower() == pat["value"]
             if isinstance(v, IntV):
                 return str(v.n) == pat["value"].rstrip("_usize")
+            if isinstance(v, (SymV, LinV)):
+                # an integer literal pattern on a symbolic scalar: the same decision as `v == literal`
+                m = re.match(r"^(-?\d+)(_?[iu](8|16|32|64|128|size))?$", pat["value"])
+                if m:
+                    r = self.binop("Eq", v, IntV(int(m.group(1))), None)
+                    if isinstance(r, BoolV):
+                        return r.b
+                    return self.truth(r)
             raise Unrecognised("const pattern on %r" % (v,))
         raise Unrecognised("pattern kind " + k)
 
